@@ -214,6 +214,39 @@ def run_impl(sc, w: World) -> Dict[str, Any]:
             "out_dir": str(expected_out), "copied": copied, "tmp": str(w.tmp)}
 
 
+def run_reuse(backend: str, pattern: List[Optional[str]], w: World) -> List[Any]:
+    """Execute len(pattern) queries on ONE dataset object; entry k is the name of the image given by query k's docker
+    metadata, or None for a query without docker metadata.  -> the image of each docker.run call (or the exception class)."""
+    cl = classes()
+    reset_name_counter()
+    docker = cl["docker"]
+    w.fresh()
+    docker.reset({"at_call": False, "chunks": [], "fail_after": None, "result": True, "extras": []})
+    old_cwd, old_tmp, old_env = os.getcwd(), tempfile.tempdir, os.environ.get("TMPDIR")
+    os.environ["TMPDIR"] = str(w.tmp)
+    tempfile.tempdir = str(w.tmp)
+    out: List[Any] = []
+    try:
+        ds0 = cl[backend]([str(w.base / "d1" / "a.root")], output_directory=w.out)
+        for p in pattern:
+            ds = ds0 if p is None else ds0.MetaData({"metadata_type": "docker", "image": f"img/{p.lower()}:1"})
+            n_before = len(docker.calls)
+            try:
+                QUERIES[backend](ds).value()
+                out.append(docker.calls[-1]["image"] if len(docker.calls) > n_before else "no-call")
+            except Exception as e:  # noqa: BLE001
+                out.append("error:" + type(e).__name__)
+            impl.reset_globals()
+    finally:
+        os.chdir(old_cwd)
+        tempfile.tempdir = old_tmp
+        if old_env is None:
+            os.environ.pop("TMPDIR", None)
+        else:
+            os.environ["TMPDIR"] = old_env
+    return out
+
+
 def wire_calls(obs) -> Tuple[List[Any], Optional[str]]:
     """The recorded calls in the model's output format, and filelist.txt as the container saw it."""
     calls = []
@@ -626,6 +659,23 @@ def check(tier: str, seed: int, t0: float, build: core.BuildStatus) -> int:
                         oc.violations.append(core.Violation(
                             key="c17:package", what=f"the package mounted at /scripts differs from the translator's output for the same query ({sc['backend']})",
                             replay={"kind": "scenario", "scenario": sc, "implementation": jsonable_obs(obs)}))
+        # one dataset object, several queries: every execution chooses its image from ITS OWN query's docker metadata
+        # (else the dataset's image:tag), whatever the queries before it carried
+        for be in BACKENDS:
+            for pattern in (["X", None], [None, "X", None], ["X", "Y", None], [None, None]):
+                got = run_reuse(be, pattern, w)
+                oc.evaluations += 1
+                bump("container", "dataset-reuse")
+                dflt = ":".join(default_image(be))
+                want = [(f"img/{p.lower()}:1" if p else dflt) for p in pattern]
+                distinct.add(json.dumps(["reuse", be, pattern]))
+                if got != want:
+                    oc.violations.append(core.Violation(
+                        key="c17:image-after-reuse",
+                        what=f"{be} local dataset object reused for {len(pattern)} queries with docker metadata {pattern}: ran images {got}, the property names {want}",
+                        replay={"kind": "reuse", "backend": be, "pattern": pattern, "ran": got, "expected": want}))
+                else:
+                    oc.traces_validated_against_impl += 1
     finally:
         w.close()
         if model is not None:
@@ -657,6 +707,19 @@ def replay(path: str, build: core.BuildStatus) -> int:
         ps = core.proof_status(PROP_FILE, build)
         print("proof status now:", ps.broken or "all theorems check")
         return 1 if ps.broken else 0
+    if data.get("kind") == "reuse":
+        w = World()
+        try:
+            got = run_reuse(data["backend"], data["pattern"], w)
+        finally:
+            w.close()
+        dflt = ":".join(default_image(data["backend"]))
+        want = [(f"img/{p.lower()}:1" if p else dflt) for p in data["pattern"]]
+        print("docker metadata per query on one dataset object:", data["pattern"], "\nran:", got, "\nexpected:", want)
+        if got != want:
+            print(f"VIOLATION property={PID} replay={path}")
+            return 1
+        return 0
     sc = data["scenario"]
     w = World()
     try:
